@@ -200,14 +200,15 @@ func streams(r *common.Run, a *agg) {
 	// is the stream format Salted__ + salt + AES-256-CTR under the EVP key and IV? (recorded, not demanded)
 	r.Cov("stream_format_is_openssl_header_plus_ctr", streamFormatMatches(ref(1, 40), pat(1, 40)))
 
-	// ---- every composition of short streams ----------------------------------------------------
-	streamsAll(r, a, out, maxTotal, ref)
+	// the cheap families first, so that a starved machine can only cut the big enumeration
+	// ---- streams that are not valid: shorter than the header, wrong magic ---------------------------
+	streamsInvalid(r, a, out, ref)
 	// ---- injected reader / writer failures on short streams --------------------------------------
 	streamsFaults(r, a, out, ref)
 	// ---- longer streams, at most k deviations ------------------------------------------------------
 	streamsDeviations(r, a, out, ref, maxTotal)
-	// ---- streams that are not valid: shorter than the header, wrong magic ---------------------------
-	streamsInvalid(r, a, out, ref)
+	// ---- every composition of short streams (shortest first) -----------------------------------------
+	streamsAll(r, a, out, maxTotal, ref)
 
 	r.Cov("stream_outcomes", out.m)
 	r.SampleL("stream", map[string]any{"entry": "DecryptStreamTo", "plaintext": hx(pat(1, 3)), "script": script{cuts: 0b1000000000000001, eofWith: true}.describe(19), "want": "plaintext back, nil error"})
